@@ -321,7 +321,7 @@ func ruleKeywordCase(c *Ctx, rule string) {
 			}
 		}
 	}
-	r.Floor(rule, "keyword spellings in the keyword switch", n, 60)
+	r.Floor(rule, "keyword spellings in the keyword switch", n, 45)
 	ob := r.Ob(rule, "keyword spellings are lower case", c.pos(kw.Pos()))
 	ob.Check(len(notLower) == 0, fmt.Sprintf("%d spellings, each equal to its own lower-casing", n), "keyword spellings that can never match a lower-cased lexeme: "+strings.Join(notLower, ", "))
 	// the tag is data-dependent on strings.ToLower applied (unconditionally) to the lexeme buffer
